@@ -53,6 +53,16 @@ PLAN = {
         "quick": [ph("input", 8, 150), ph("race", 2, 40, race=True)],
         "thorough": [ph("input", 16, 8000), ph("race", 8, 800, race=True)],
     },
+    "C05": {
+        "level": "exploration",
+        "level_text": "Reference-model monitor over generated families of derivation programs from one root (regroupings/permutations with equal identity, single-assignment mutations, delimiter forgeries): pointer identity of every pair of returned scopes must agree with equality of the injective reference identity, a unique power-of-two value recorded through every distinct scope object must arrive under exactly that identity's name and tags, metric get-or-create is checked by pointer, and the public key functions are compared with the documented format, for determinism and multi-map/merged-map agreement",
+        "level_note": "trusts the injective reference identity (length-prefixed prefix + sorted tags); cases containing a canonical-key collision through delimiter characters are only examined for the known finding KF-C05-delim",
+        "technique": "runtime reference-model monitor over generated program families (pointer-identity and delivery oracles)",
+        "rule": "case = one root (plain/cached, shard count 1..64) with 2..5 programs: a random base, regroupings of it (same identity by construction), mutations (value changed, key/value swapped, empty key, delimiter forging, extra level) and independent programs; all intermediate scopes of all programs are compared pairwise; plus one key-function case (1..4 maps); distinct_nontrivial = distinct (root, program family) and (prefix, maps) hashes",
+        "assumptions": ["reference identity mon.IdentKey + cmd/vh/deriv.go"],
+        "quick": [ph("input", 8, 700)],
+        "thorough": [ph("input", 16, 35000)],
+    },
 }
 
 NOT_APPLICABLE = {}
